@@ -3,7 +3,7 @@ from props import _auto
 
 LEAN_MODULES = _auto.lean_modules("C02")
 VARIANTS = ['default']
-RULE = 'exhaustive op sequences to depth 3 (quick) / 4 (thorough) over {update, update_mut, clone-and-fork, reset, reset_with_key, finalize_reset, finalize} with chunk lengths {0,1,B-1,B,B+1,2B+3}, plus random histories of 5-40 ops; non-trivial = history contains data; distinct = distinct case lines'
+RULE = 'exhaustive op sequences to depth 3 (quick) / 4 (thorough, complete for the SHA-2, SHA-3/Keccak (all 8), SHA-1 and RIPEMD-160 contexts: 17 symbols, 17^4 histories each) over {update, update_mut, clone-and-fork, swap, reset, finalize_reset, finalize} with chunk lengths {0,1,B-1,B,B+1,2B+3} for BOTH update and update_mut; BLAKE2: 22 symbols (update and update_mut x all 6 chunk lengths, fork, swap, reset, reset_with_key with the empty / a 1-byte / a maximal key, finalize_reset, finalize_reset_with_key with a 1-byte and a maximal key, finalize) — every sequence to depth 3 through all three APIs (ContextDyn, Context<8*outlen>, const-generic Context<224|256|384|512>), depth 4 (thorough) complete with the three APIs taking turns (one API per sequence) —, re-keying transitions between all key classes, plus random histories of 5-40 ops; non-trivial = history contains data; distinct = distinct case lines'
 TRUSTED = ["hand-written Lean models (lean/CxVerif/Impl, Spec) tied to the code by the correspondence run and by tables re-extracted from /repo/src"]
 ASSUMPTIONS = ['same length guards as C01 at every finalisation of a history', '`clone` is the identity on immutable model values: independence of the two Rust copies is a correspondence obligation (ops c/x), not a theorem; the structs are plain arrays and integers (field lists re-derived from source by the glue translators)']
 gen = _auto.make_gen("C02")
